@@ -54,6 +54,9 @@ def plan(tier, seed):
             # restart histories: both bodies are created anew on the deformed fields after every substep
             for nsub in (2, 3):
                 cases.append(dict(key=f"condensed-restart/{fk}/bulk={bulk}/substeps={nsub}", kind="ni", fk=fk, bulk=bulk, nsub=nsub, restart=True, seed=seed, cost=10))
+    # a hand-written Newton loop that updates the field IN PLACE (field += dx), three load levels
+    for fk in ("3d", "ps", "axi"):
+        cases.append(dict(key=f"condensed-inplace/{fk}/bulk=50.0", kind="ni-inplace", fk=fk, bulk=50.0, seed=seed, cost=10))
     for fam in ("quad", "hexahedron", "quad9"):
         for n in (2, 3, 4, 5) if fam != "hexahedron" else (2, 3, 4):
             cases.append(dict(key=f"uniform/{fam}/n={n}", kind="uniform", fam=fam, n=n, seed=seed, cost=4))
@@ -346,6 +349,49 @@ def run(case):
             c.cmp(f"substep{s_}/converged/J", "converged volume ratios", la[-1][2], lb[-1][2], 1e-7)
             c.cmp(f"substep{s_}/converged/p", "converged pressures", 1 + la[-1][1] / max(case["bulk"], 1), 1 + lb[-1][1] / max(case["bulk"], 1), 1e-7)
         return c.result(dict(case=case["key"], iterations=cnt_c, cells=int(mesh.ncells)))
+    if kind == "ni-inplace":
+        fk = case["fk"]
+        if fk == "3d":
+            mesh = fem.Cube(n=3)
+            Rg = fem.RegionHexahedron
+            F = fem.Field
+        else:
+            mesh = fem.Rectangle(a=(0.0, 0.4 if fk == "axi" else 0.0), b=(1.0, 1.4 if fk == "axi" else 1.0), n=3)
+            Rg = fem.RegionQuad
+            F = fem.FieldAxisymmetric if fk == "axi" else fem.FieldPlaneStrain
+        region = Rg(mesh)
+        kw = dict(axisymmetric=True) if fk == "axi" else (dict(planestrain=True) if fk == "ps" else {})
+        fc = fem.FieldContainer([F(region, dim=mesh.dim)])
+        fm = fem.FieldsMixed(region, n=3, **kw)
+        bc = fem.SolidBodyNearlyIncompressible(fem.NeoHooke(mu=1.0), fc, bulk=case["bulk"])
+        bm = fem.SolidBody(fem.NearlyIncompressible(fem.NeoHooke(mu=1.0), bulk=case["bulk"]), fm)
+        out = {}
+        for tag, field, body in (("c", fc, bc), ("m", fm, bm)):
+            bounds, lc = fem.dof.uniaxial(field, clamped=True, move=0.0, axis=0, sym=(False, True, False)[: mesh.dim] + (False,) * (3 - mesh.dim))
+            res = []
+            for mv in (-0.08, -0.16, -0.24):
+                bounds["move"].update(mv)
+                ext0 = fem.dof.apply(field, bounds, lc["dof0"])
+                for it in range(25):
+                    r = body.assemble.vector(field)
+                    K = body.assemble.matrix()
+                    system = fem.solve.partition(field, K, lc["dof1"], lc["dof0"], r)
+                    dx = np.asarray(fem.solve.solve(*system, ext0)).ravel()
+                    field += dx  # in place: the body keeps seeing the same field object
+                    c.trans += 1
+                    if np.abs(dx).max() < 1e-13:
+                        break
+                body.assemble.vector(field)  # (the condensed state follows with the next evaluation at an unchanged field)
+                if tag == "c":
+                    res.append((field[0].values.copy(), bc.results.state.p.copy(), bc.results.state.J.copy()))
+                else:
+                    res.append((field[0].values.copy(), field[1].values.ravel().copy(), field[2].values.ravel().copy()))
+            out[tag] = res
+        for lv, (a, b) in enumerate(zip(out["c"], out["m"])):
+            c.cmp(f"level{lv}/u", "converged displacements, in-place Newton loop: condensed vs explicit", a[0], b[0], 1e-8)
+            c.cmp(f"level{lv}/J", "converged volume ratios, in-place Newton loop", a[2], b[2], 1e-7)
+            c.cmp(f"level{lv}/p", "converged pressures, in-place Newton loop", 1 + a[1] / case["bulk"], 1 + b[1] / case["bulk"], 1e-7)
+        return c.result(dict(case=case["key"], cells=int(mesh.ncells)))
     if kind == "uniform":
         fam, n = case["fam"], case["n"]
         if fam == "hexahedron":
